@@ -566,6 +566,45 @@ pub fn globals(args: &[String]) -> i32 {
             }
             summary.push(json!({"P": p, "builder": b, "values_tried": tried, "distinct_outcomes": classes.len()}));
         }
+        // text sweep: every text-valued opcode of the protocol forced from the empty stack with texts whose
+        // CONTENT could matter to an emitter (escape-like sequences, quotes, format directives, digits)
+        let texts: [&str; 18] = ["\\u0041", "\\U0001F600", "\\x41", "\\n", "\\", "'", "\"", "\\'", "%s%n", "{}", "0", "-1", "1e5", "nan", "True",
+                                 "a b", "__reduce__", "\\u00e9\\u00e9"];
+        // the emitters draw characters as indices into their own table: learn the table by emitting one character per index
+        let mut index_of: HashMap<u8, u8> = HashMap::new();
+        for idx in 0..=255u8 {
+            let mut g = fresh(&cfg);
+            if let Ok(b) = force_data(&mut g, OpcodeKind::Unicode, &[1, idx, 0, 0, 0, 0]) {
+                if b.len() == 3 && b[0] == 0x56 { index_of.entry(b[1]).or_insert(idx); }
+                // protocol 0 doubles the backslash
+                if b.len() == 4 && b[0] == 0x56 && b[1] == 0x5c && b[2] == 0x5c { index_of.entry(0x5c).or_insert(idx); }
+            }
+        }
+        let g0 = fresh(&cfg);
+        let en0 = enabled_mask(&g0.verif_valid_opcodes(), &order);
+        let pre0 = proj(&g0);
+        let mut ntext = 0usize;
+        for op in g0.verif_valid_opcodes() {
+            if !matches!(op, OpcodeKind::String | OpcodeKind::Unicode | OpcodeKind::BinUnicode | OpcodeKind::ShortBinUnicode
+                | OpcodeKind::BinUnicode8 | OpcodeKind::BinString | OpcodeKind::ShortBinString) { continue; }
+            for t in texts.iter() {
+                let t = t.replace("\\\\", "\\");
+                let mut data: Vec<u8> = vec![t.len() as u8];
+                data.extend(t.bytes().map(|c| index_of.get(&c).copied().unwrap_or(0)));
+                data.extend_from_slice(&[0u8; 16]);
+                let mut g = fresh(&cfg);
+                let res = std::panic::catch_unwind(std::panic::AssertUnwindSafe(|| force_data(&mut g, op, &data)));
+                let (bytes, post, err) = match res {
+                    Ok(Ok(b)) => (b, proj(&g), String::new()),
+                    Ok(Err(e)) => (Vec::new(), proj(&g), e),
+                    Err(_) => (Vec::new(), pre0.clone(), "panic".to_string()),
+                };
+                ntext += 1;
+                writeln!(out, "{}", json!({"cfg": cfgj, "path": [], "op": op.as_u8(), "seed": "0", "bytes": bytes, "muts": [], "rate": 0.1,
+                    "pre": proj_json(&pre0), "post": proj_json(&post), "en": en0, "err": err, "depth": 0})).unwrap();
+            }
+        }
+        summary.push(json!({"P": p, "builder": 0, "values_tried": ntext, "distinct_outcomes": 0}));
     }
     out.flush().unwrap();
     println!("{}", serde_json::to_string(&summary).unwrap());
